@@ -2,6 +2,7 @@ package restarteng
 
 import (
 	"fmt"
+	"strings"
 	"time"
 
 	"pgregory.net/rapid"
@@ -20,6 +21,10 @@ type AbortCase struct {
 	Victim   []dbh.Stmt     `json:"victim"`
 	Conflict bool           `json:"conflict"` // a second transaction read-locks every row before the victim's last statement
 	Follow   []dbh.Stmt     `json:"follow"`
+	// Pad: rows of ~900 bytes in an extra table; the table is scanned after every statement of the victim, after the abort
+	// and before every check, so that with a small pool the pages the victim (and its rollback) changed are evicted and
+	// read back in between
+	Pad int `json:"pad,omitempty"`
 }
 
 type AbortStats struct {
@@ -55,6 +60,24 @@ func runAbort(c *AbortCase, st *AbortStats) *vf.Failure {
 		m.Create(&c.Defs[i])
 		defs = append(defs, &c.Defs[i])
 		st.Classes["kind:"+kindClass(&c.Defs[i])] = true
+	}
+	pressure := func() {}
+	if c.Pad > 0 {
+		pad := &dbh.TableDef{Name: "padtbl", Cols: []dbh.Col{{Name: "id", T: "i", Idx: dbh.IdxNone}, {Name: "s", T: "s", Idx: dbh.IdxNone}}}
+		if err := db.CreateTable(pad); err != nil {
+			return vf.Failf("create-error", "%v", err)
+		}
+		for i := 0; i < c.Pad; i += 10 {
+			ins := &dbh.Stmt{Kind: "insert", Table: "padtbl", Cols: []string{"id", "s"}}
+			for j := i; j < i+10 && j < c.Pad; j++ {
+				ins.Rows = append(ins.Rows, dbh.Row{dbh.IntV(int32(j)), dbh.StrV(strings.Repeat("p", 900))})
+			}
+			if _, err := db.Auto(ins); err != nil {
+				return vf.Failf("setup-error", "pad rows: %v", err)
+			}
+		}
+		pressure = func() { db.ScanAll("padtbl") }
+		st.Classes["buffer-pressure"] = true
 	}
 	ambiguous := func(s *dbh.Stmt, base *dbh.MDB) bool {
 		if s.Kind == "insert" {
@@ -99,6 +122,7 @@ func runAbort(c *AbortCase, st *AbortStats) *vf.Failure {
 		}
 		before := rowKeys(work, s.Table)
 		_, err := t.Exec(s)
+		pressure()
 		if t.Done {
 			st.ConflictHit = true
 			st.Classes["aborted-by-conflict"] = true
@@ -133,9 +157,17 @@ func runAbort(c *AbortCase, st *AbortStats) *vf.Failure {
 	if blocker != nil && !blocker.Done {
 		blocker.Commit()
 	}
+	pressure()
 	if f := Battery(db, m, defs, "after the abort", false); f != nil {
 		f.Class = "after-abort:" + f.Class
 		return f
+	}
+	if c.Pad > 0 {
+		pressure()
+		if f := Battery(db, m, defs, "after the abort and eviction of the rolled-back pages", false); f != nil {
+			f.Class = "after-abort:" + f.Class
+			return f
+		}
 	}
 	// later transactions reuse the space without disturbing other rows
 	for i := range c.Follow {
@@ -241,5 +273,6 @@ func GenAbort(t *rapid.T, o GenOpts) *AbortCase {
 	c.Follow = gen(4, "nfollow")
 	frames := 3*nIdx + 8*nBtree + 12 + rapid.SampledFrom([]int{0, 6, 40}).Draw(t, "spare")
 	c.KB = frames * 4
+	c.Pad = rapid.SampledFrom([]int{0, 0, 60, 120}).Draw(t, "pad")
 	return c
 }
